@@ -290,3 +290,6 @@ if __name__ == "__main__":
         print(json.dumps(random_histories(int(sys.argv[2]), int(sys.argv[3]), float(sys.argv[4]))))
     else:
         print(json.dumps(sweep(int(sys.argv[1]) if len(sys.argv) > 1 else 120)))
+
+
+from replay.C01 import replay_visibility  # noqa: E402,F401  (replay of the table.is_public obligation shared with C01)
